@@ -79,7 +79,8 @@ def redraw_numeric(rng: random.Random, g: dict) -> dict:
     """Same abstract configuration (structure, schedule, which buffers exist), different numbers / algebraic options."""
     h = copy.deepcopy(g)
     lr1, lr2 = rng.sample(DYADIC_LR, 2)
-    h["lr"] = [0.0, 1.0 if h.get("hyper_style") == "int" else lr1, lr2]
+    if not h.get("keep_lr"):
+        h["lr"] = [0.0, 1.0 if h.get("hyper_style") == "int" else lr1, lr2]
     h["mom"] = [0.0, rng.choice([0.5, 0.75, 0.9]), rng.choice([0.3, 0.6])]
     h["b1"] = [0.0, rng.choice([0.5, 0.8, 0.9]), rng.choice([0.6, 0.7])]
     h["wd"] = [0.0, rng.choice([0.01, 0.1, 0.25])]
